@@ -96,9 +96,15 @@ Lemma select_dynamic_generic (op : binop) (t : rtype) :
   select_opcode op RDynamic t = select_generic_opcode op /\
   select_opcode op t RDynamic = select_generic_opcode op.
 Proof.
-  split; rewrite select_flags; cbn [unwrap_uncertain is_integer is_float_ty];
-    destruct (is_integer (unwrap_uncertain t)), (is_float_ty (unwrap_uncertain t)),
-             (needs_guard t); destruct op; reflexivity.
+  split.
+  - rewrite select_flags. cbn [unwrap_uncertain is_integer is_float_ty needs_guard orb].
+    destruct (is_integer (unwrap_uncertain t)), (is_float_ty (unwrap_uncertain t)), (needs_guard t).
+    all: destruct op.
+    all: reflexivity.
+  - rewrite select_flags. cbn [unwrap_uncertain is_integer is_float_ty].
+    destruct (is_integer (unwrap_uncertain t)), (is_float_ty (unwrap_uncertain t)), (needs_guard t).
+    all: destruct op.
+    all: reflexivity.
 Qed.
 
 (* every selected opcode is one the VM model knows, and the generic selection is generic_sem *)
@@ -121,37 +127,59 @@ Proof. destruct op; reflexivity. Qed.
 Definition run_selected (hv : heapview) (op : binop) (l r : rtype) (a b : N) : option vres :=
   vm_binop hv (select_opcode op l r) a b.
 
+(* the generic semantics of the same operator *)
+Definition generic_of (s : binsem) : binsem :=
+  match s with SArith _ o => SArith FGen o | SCmp _ o => SCmp FGen o | SBit _ o => SBit FGen o end.
+Definition is_eq_sem (s : binsem) : bool :=
+  match s with SCmp _ CEq | SCmp _ CNe => true | _ => false end.
+
+(* closed fact about the selection tables: whatever is selected is a variant of the operator's
+   generic opcode *)
+Lemma select_by_flags_sem (op : binop) (il fl ir fr g : bool) :
+  exists s, binop_sem (select_by_flags op il fl ir fr g) = Some s /\
+            generic_of s = generic_sem op /\ is_eq_sem s = is_eqop op.
+Proof.
+  destruct il, fl, ir, fr, g.
+  all: destruct op.
+  all: eexists; split; [reflexivity | split; reflexivity].
+Qed.
+
+(* every variant computes what the generic variant computes, on all words *)
+Lemma variant_sound (hv : heapview) (s : binsem) (a b : N) :
+  is_eq_sem s = false -> a < W64 -> b < W64 ->
+  run_binsem hv s a b = run_binsem hv (generic_of s) a b.
+Proof.
+  intros He Ha Hb. destruct s as [f o|f o|f o]; destruct f; cbn [run_binsem generic_of]; try reflexivity.
+  - apply typed_arith_ff_total; assumption.
+  - apply guarded_arith_iig_total; assumption.
+  - apply guarded_arith_ffg_total; assumption.
+  - destruct o; try discriminate; apply typed_ord_ff_total; try reflexivity; assumption.
+  - destruct o; try discriminate; apply guarded_ord_iig_total; try reflexivity; assumption.
+  - destruct o; try discriminate; apply guarded_ord_ffg_total; try reflexivity; assumption.
+Qed.
+
 Lemma selected_sound_all_words (hv : heapview) (op : binop) (l r : rtype) (a b : N) :
   is_eqop op = false -> a < W64 -> b < W64 ->
   run_selected hv op l r a b = Some (run_binsem hv (generic_sem op) a b).
 Proof.
-  intros He Ha Hb. unfold run_selected, vm_binop.
-  rewrite select_flags.
-  destruct (is_integer (unwrap_uncertain l)), (is_float_ty (unwrap_uncertain l)),
-           (is_integer (unwrap_uncertain r)), (is_float_ty (unwrap_uncertain r)),
-           (needs_guard l || needs_guard r);
-  destruct op; try discriminate; cbn [select_by_flags andb orb select_guarded_int_opcode
-    select_typed_int_opcode select_guarded_float_opcode select_typed_float_opcode
-    select_generic_opcode binop_sem generic_sem run_binsem]; f_equal;
-  try reflexivity;
-  try (apply typed_arith_ff_total; assumption);
-  try (apply typed_ord_ff_total; [reflexivity | assumption | assumption]);
-  try (apply guarded_arith_iig_total; assumption);
-  try (apply guarded_arith_ffg_total; assumption);
-  try (apply guarded_ord_iig_total; [reflexivity | assumption | assumption]);
-  try (apply guarded_ord_ffg_total; [reflexivity | assumption | assumption]).
+  intros He Ha Hb. unfold run_selected, vm_binop. rewrite select_flags.
+  destruct (select_by_flags_sem op (is_integer (unwrap_uncertain l)) (is_float_ty (unwrap_uncertain l))
+              (is_integer (unwrap_uncertain r)) (is_float_ty (unwrap_uncertain r))
+              (needs_guard l || needs_guard r)) as (s & Hs & Hg & Hq).
+  rewrite Hs. f_equal. rewrite <- Hg. apply variant_sound; [rewrite Hq; exact He | exact Ha | exact Hb].
 Qed.
 
 (* == and != : same statement when no operand is a float and int operands are the words
    Value::int builds (the remaining cases compare IEEE == with Value ==, see eq_nan_differs) *)
 Definition canon_int (w : N) : Prop := is_int w = true -> exists x, in48 x /\ w = v_int x.
 
-Lemma selected_eq_sound (hv : heapview) (op : binop) (l r : rtype) (a b : N) :
-  is_eqop op = true -> a < W64 -> b < W64 ->
+Lemma variant_eq_sound (hv : heapview) (s : binsem) (a b : N) :
+  a < W64 -> b < W64 ->
   is_float a = false -> is_float b = false -> canon_int a -> canon_int b ->
-  run_selected hv op l r a b = Some (run_binsem hv (generic_sem op) a b).
+  is_eq_sem s = true ->
+  run_binsem hv s a b = run_binsem hv (generic_of s) a b.
 Proof.
-  intros He Ha Hb Fa Fb Ca Cb. unfold run_selected, vm_binop.
+  intros Ha Hb Fa Fb Ca Cb He.
   assert (G : forall o, gd_cmp_iig hv o a b = g_cmp hv o a b).
   { intro o. destruct (is_int a) eqn:Ia; destruct (is_int b) eqn:Ib.
     - destruct (Ca Ia) as (x & Hx & ->). destruct (Cb Ib) as (y & Hy & ->).
@@ -161,14 +189,21 @@ Proof.
     - apply (guarded_eq_nonnum hv o a b Ha Hb). unfold is_num. rewrite Ia, Fa. reflexivity. }
   assert (T : forall o, t_cmp_ff hv o a b = g_cmp hv o a b).
   { intro o. apply typed_eq_ff_nonfloat. rewrite Fa. reflexivity. }
-  rewrite select_flags.
-  destruct (is_integer (unwrap_uncertain l)), (is_float_ty (unwrap_uncertain l)),
-           (is_integer (unwrap_uncertain r)), (is_float_ty (unwrap_uncertain r)),
-           (needs_guard l || needs_guard r);
-  destruct op; try discriminate; cbn [select_by_flags andb orb select_guarded_int_opcode
-    select_typed_int_opcode select_guarded_float_opcode select_typed_float_opcode
-    select_generic_opcode binop_sem generic_sem run_binsem]; f_equal;
-  try reflexivity; try apply G; try apply T.
+  destruct s as [f o|f o|f o]; try discriminate.
+  destruct f; cbn [run_binsem generic_of]; try reflexivity; try apply G; try apply T.
+Qed.
+
+Lemma selected_eq_sound (hv : heapview) (op : binop) (l r : rtype) (a b : N) :
+  is_eqop op = true -> a < W64 -> b < W64 ->
+  is_float a = false -> is_float b = false -> canon_int a -> canon_int b ->
+  run_selected hv op l r a b = Some (run_binsem hv (generic_sem op) a b).
+Proof.
+  intros He Ha Hb Fa Fb Ca Cb. unfold run_selected, vm_binop. rewrite select_flags.
+  destruct (select_by_flags_sem op (is_integer (unwrap_uncertain l)) (is_float_ty (unwrap_uncertain l))
+              (is_integer (unwrap_uncertain r)) (is_float_ty (unwrap_uncertain r))
+              (needs_guard l || needs_guard r)) as (s & Hs & Hg & Hq).
+  rewrite Hs. f_equal. rewrite <- Hg.
+  apply variant_eq_sound; try assumption. rewrite Hq. exact He.
 Qed.
 
 (* ------------------------------------------------------------------ generated dispatch arms *)
@@ -177,6 +212,11 @@ Lemma dispatch_arms_facts :
   no_unchecked_accessor_in_dispatch = true.
 Proof. vm_compute. repeat split; reflexivity. Qed.
 
+Lemma canon_int_5 : canon_int (v_int 5).
+Proof. intros _. exists 5%Z. split; [unfold in48; lia | reflexivity]. Qed.
+Lemma canon_int_null : canon_int v_null.
+Proof. intro H. vm_compute in H. discriminate. Qed.
+
 Lemma nonvacuous_select :
   select_opcode OpAdd RI64 RF64 = O_AddFFG /\ select_opcode OpAdd RI64 RDynamic = O_Add /\
   select_opcode OpShl (RUncertain RI64) RI64 = O_Shl /\ select_opcode OpAdd (RUncertain RI64) RI64 = O_AddIIG /\
@@ -184,7 +224,7 @@ Lemma nonvacuous_select :
   run_selected no_heap OpAdd RI64 RI64 W_2_5 (v_int 1) = Some (ROk W_3_5) /\
   canon_int (v_int 5) /\ canon_int v_null.
 Proof.
-  repeat split; try (vm_compute; reflexivity).
-  - intros _. exists 5%Z. split; [unfold in48; lia | reflexivity].
-  - intro H. vm_compute in H. discriminate.
+  split; [vm_compute; reflexivity|]. split; [vm_compute; reflexivity|]. split; [vm_compute; reflexivity|].
+  split; [vm_compute; reflexivity|]. split; [vm_compute; reflexivity|]. split; [vm_compute; reflexivity|].
+  split; [vm_compute; reflexivity|]. exact (conj canon_int_5 canon_int_null).
 Qed.
